@@ -43,16 +43,27 @@ META = {
             "dot: ((1+eps)^n-1) sum|x_i y_i| + (2n-1) eta (1+eps)^n; norm2: 7/2 (eps+eta) sqrt(x^2+y^2) + eta), proved in the "
             "standard rounding model |rnd x - x| <= eps|x| + eta with gradual underflow, overflow excluded; IEEE binary64 "
             "round-to-nearest-even satisfies that model with eps=2^-53, eta=2^-1075 by Flocq (C11_binary64_satisfies_model) - "
-            "the step from the rounded-real term to the C's binary64 run, norm3/norm_ and the libm-based bodies remain unproved.",
+            "the step from the rounded-real term to the C's binary64 run, norm3/norm_ and the libm-based bodies remain unproved. "
+            "LOOP TIE (harness/C11/TieLoop*.v, 30 theorems re-proved on every run): the 26 reductions and array helpers are "
+            "regenerated from the current math.c with their loops as Fixpoints (tools/c2arr.py: arrays as lists with checked "
+            "access, counters as nat, every would-be wrap of n*c, i+c or sizeof(a_real)*n an error) and proved equal to the list "
+            "model for every NumOps instance and for EVERY length, stride, offset, array length (too short: both sides error) and "
+            "content - without hypotheses for the loops that count n down (sum, sum1, sum2, mean, dot, copy_, swap, fill, zero and "
+            "their strided forms), under the stated no-wrap hypothesis n*c < 2^64 (norm, norm_) resp. 8*n < 2^64 (copy, push, "
+            "roll) otherwise; for norm on an array the model calls too short the code returns either the error or infinity (it "
+            "stops at the first infinite cell), proved as such.",
     "note": "Trusted: Coq kernel/vm_compute with primitive floats and Interval's reflexive checker; real-number axioms listed by "
             "Print Assumptions; the 'same term, different NumOps instance' argument; the hand transcription coq/C11/MathDefs.v "
             "(validated bit for bit on the generated cases only; libm log/exp/atan/sin/cos replaced by the same fixed substitute "
             "functions on both sides in that run, so libm itself is outside every claim); the model is of the a_real=double "
             "fallback build (float and libm-bound builds are covered by the sampled accuracy tie only); memcpy/memmove modelled "
-            "as read-all-then-write; size_t arithmetic (n*c, i+c) assumed not to wrap; mpmath as reference for the sampled "
+            "as read-all-then-write (the loop tie checks that a_copy/a_move/a_zero of src/a.c are memcpy/memmove/memset); size_t "
+            "arithmetic (n*c, i+c, sizeof*n) not wrapping is a HYPOTHESIS of the loop-tie theorems and assumed elsewhere; pointers "
+            "formed beyond the end of an array by the strided loops are not bounded (only accesses are); the translator "
+            "tools/c2arr.py is trusted to read the C right (its output is proved equal to the model, not to the C); mpmath as reference for the sampled "
             "accuracy; gcc -O2 -ffp-contract=off being IEEE per operation. Rounding error of the float evaluation is measured, "
             "not proved; signed zeros/inf/NaN behaviour is compared with the model but is outside the theorems.",
-    "technique": "Rocq proof over R (lra/nra/field, Coquelicot, interval) + the 13 scalar fallback bodies of math.c regenerated by a translator and proved equal to the model on every run, the reductions and array helpers unrolled for counts 0..3 / strides 0..2 and proved equal to the list model + bit-exact primitive-float model vs C correspondence + sampled mpmath accuracy",
+    "technique": "Rocq proof over R (lra/nra/field, Coquelicot, interval) + the 13 scalar fallback bodies of math.c regenerated by a translator and proved equal to the model on every run, the reductions and array helpers unrolled for counts 0..3 / strides 0..2 and proved equal to the list model, and regenerated with their loops as Fixpoints and proved equal to it for every length and stride + bit-exact primitive-float model vs C correspondence + sampled mpmath accuracy",
 }
 
 H = vlib.VERIF / "harness" / "C11"
@@ -650,6 +661,10 @@ def translator_tie(ctx):
     # an array is a translation error), proved to compute what the list model computes, for all cell values (272 theorems)
     ctx.translate_and_tie([("src/math.c", (H / "tie_arr_names.txt").read_text().split())], "GenArr", sorted(H.glob("TieArr*.v")),
                           have=0, real=8, timeout=1200)
+    # ... and the same 26 functions with their loops as Fixpoints (tools/c2arr.py), proved equal to the list model for EVERY count,
+    # stride, offset and array length (harness/C11/TieLoop*.v, 30 theorems; no-wrap hypotheses in the statements)
+    import varr
+    varr.arr_translate_and_tie(ctx, "C11")
 
 
 def run(ctx):
